@@ -340,11 +340,17 @@ pub const STACK_TX_EXTRA_RULES: &str = " d2 = _{ DROP ~ DROP } p2 = _{ POP ~ POP
 
 /// Many-rules slice (C08 / C15): bodies over references to a family of small rules of every
 /// modifier, so that several reportable rules are tried at the same position, nested to depth 3.
-pub const MANY_RULES_EXTRA: &str = " a = { \"a\" } b = { \"b\" } c = { a ~ b } d = _{ a | b } e = @{ \"a\" ~ \"b\" } f = ${ b ~ a? } g = { !a ~ ANY } many = { a | b | c | e | g } mid = { many ~ \"!\" } top = { a | b | mid } h = @{ hh ~ \"!\"? } hh = { f ~ a? } i = ${ ii } ii = { n ~ a? } n = !{ b ~ a? } ";
+pub const MANY_RULES_EXTRA: &str = " a = { \"a\" } b = { \"b\" } c = { a ~ b } d = _{ a | b } e = @{ \"a\" ~ \"b\" } f = ${ b ~ a? } g = { !a ~ ANY } many = { a | b | c | e | g } mid = { many ~ \"!\" } top = { a | b | mid } h = @{ hh ~ \"!\"? } hh = { f ~ a? } i = ${ ii } ii = { n ~ a? } n = !{ b ~ a? } p = @{ pp } pp = { a ~ n? ~ f* } q = ${ a ~ (n | b)? } ";
 pub fn many_rules_bodies(max: usize) -> Vec<String> {
     let leaves = ["a", "b", "c", "d", "e", "f", "g", "many", "mid", "top", "h", "i", "\"a\"", "\"!\""];
     let unary = [("(", ")?"), ("(", ")*"), ("!(", ")"), ("&(", ")")];
     let mut v: Vec<String> = bodies_by_size(&leaves, &unary, max).into_iter().flatten().collect();
+    // mode switches swallowed by ? / * / | three rules deep
+    for x in ["p", "q"] {
+        for b in [format!("{x}"), format!("({x})?"), format!("({x})* ~ a?"), format!("{x} ~ {x}"), format!("!({x}) ~ ANY"), format!("a ~ ({x} | b)")] {
+            v.push(b);
+        }
+    }
     // nested predicates with token-producing rules before / after the inner one
     let rl = ["a", "b", "c", "d", "e", "g"];
     for p1 in ["&", "!"] {
